@@ -282,6 +282,34 @@ func (rb *replayBuilder) runReplay(rf *replayFile, path string) replayOutcome {
 	return replayOutcome{Reproduced: false, Runs: repeats, Output: trim(last, 4000)}
 }
 
+// runPass replays a passing path natively: Reproduced=true means the native
+// run reached the end with no failed assertion and no panic.
+func (rb *replayBuilder) runPass(rf *replayFile, path string) replayOutcome {
+	bin, err := rb.binary(rf.Package, false)
+	if err != nil {
+		return replayOutcome{Note: err.Error()}
+	}
+	cmd := exec.Command(bin, "-test.run", "^TestVerifReplay$", "-test.count=1", "-test.timeout=60s")
+	cmd.Dir = pkgDir(rf.Package)
+	cmd.Env = append(goEnv(), "VERIF_REPLAY="+path, "VERIF_HARNESS="+rf.Harness)
+	done := make(chan struct{})
+	var out []byte
+	go func() { out, _ = cmd.CombinedOutput(); close(done) }()
+	select {
+	case <-done:
+	case <-time.After(90 * time.Second):
+		if cmd.Process != nil {
+			cmd.Process.Kill()
+		}
+		<-done
+		out = append(out, []byte("\nVERIF-TIMEOUT\n")...)
+	}
+	o := string(out)
+	ok := strings.Contains(o, "VERIF-DONE") && strings.Contains(o, "VERIF-REACH end") && !strings.Contains(o, "VERIF-FAIL") &&
+		!strings.Contains(o, "VERIF-PANIC") && !strings.Contains(o, "VERIF-MISMATCH") && !strings.Contains(o, "VERIF-ASSUME-FAILED") && !strings.Contains(o, "VERIF-TIMEOUT")
+	return replayOutcome{Reproduced: ok, Runs: 1, Output: trim(o, 3000)}
+}
+
 func mapOrderDependent(rf *replayFile) bool {
 	return os.Getenv("VERIF_REPLAY_REPEAT") != "" || rf.Kind == "assert"
 }
@@ -405,6 +433,7 @@ func checkCmd(args []string) int {
 	var tot interp.Stats
 	var solverS float64
 	replays := 0
+	passReplays := 0
 	replayDir := filepath.Join(verifRoot(), "out", "replay", prop)
 	os.RemoveAll(replayDir)
 	os.MkdirAll(replayDir, 0o755)
@@ -542,6 +571,43 @@ func checkCmd(args []string) int {
 		}
 		wg.Wait()
 		replays += len(jobs)
+		// translation validation of the pass direction: sampled passing
+		// paths are replayed natively and must pass there too
+		if os.Getenv("VERIF_NO_PASS_VALIDATION") == "" {
+			var pjobs []*job
+			for i := range res.PassSamples {
+				f := &res.PassSamples[i]
+				nreplay++
+				rf := makeReplay(prop, h.pkg, h.fn, tier, f)
+				path := filepath.Join(replayDir, fmt.Sprintf("%s_pass_%03d.json", h.fn, nreplay))
+				jb, _ := json.MarshalIndent(rf, "", " ")
+				os.WriteFile(path, jb, 0o644)
+				pjobs = append(pjobs, &job{f: f, rf: rf, path: path})
+			}
+			var pwg sync.WaitGroup
+			for _, j := range pjobs {
+				pwg.Add(1)
+				go func(j *job) {
+					defer pwg.Done()
+					sem <- struct{}{}
+					j.out = rb.runPass(j.rf, j.path)
+					<-sem
+				}(j)
+			}
+			pwg.Wait()
+			for _, j := range pjobs {
+				if j.out.Note != "" {
+					mismatchLines = append(mismatchLines, fmt.Sprintf("REPLAY-UNAVAILABLE harness=%s: %s", h.fn, trim(j.out.Note, 600)))
+					break
+				}
+				passReplays++
+				if !j.out.Reproduced {
+					mismatchLines = append(mismatchLines, fmt.Sprintf("ENGINE-MISMATCH harness=%s replay=%s: a path the engine proved passes natively FAILS on its model (choices=[%s])\n%s", h.fn, j.path, j.rf.Choices, trim(j.out.Output, 1500)))
+				} else {
+					os.Remove(j.path)
+				}
+			}
+		}
 		seenKey := map[string]bool{}
 		for _, j := range jobs {
 			if seenKey[j.key] && !j.out.Reproduced {
@@ -636,26 +702,28 @@ func checkCmd(args []string) int {
 			"distinct_nontrivial": tot.PathsNontriv,
 			"rule": "one evaluation = one complete symbolic execution path of a harness over the real SSA of /repo (each path stands for all inputs satisfying its path condition); " +
 				"non-trivial = the path condition contains at least one solver-decided conjunct; paths are distinct by construction (distinct decision vectors)",
-			"states":                        tot.Paths + decTotal,
-			"transitions":                   decTotal + tot.Paths,
-			"traces_validated_against_impl": replays,
-			"samples":                       samples,
-			"exhaustive":                    false,
-			"technique":                     "bounded symbolic execution of go/ssa with SMT (z3) path feasibility and assertion discharge",
-			"harnesses":                     reports,
-			"functions_encoded":             fnList,
-			"intrinsics_used":               inList,
-			"bounds":                        spec.Bounds[tier],
-			"outside_the_claim":             spec.Outside,
-			"queries":                       map[string]any{"feasibility": tot.QFeas, "assertion": tot.QAssert, "answered_from_cache": tot.QCached, "answered_by_cached_model": tot.QModelHit, "unknown": tot.QUnknown},
-			"assertions_discharged":         tot.AssertsChecked,
-			"solver":                        solverFromEnv().String(),
-			"solver_s":                      solverS,
-			"decisions_by_kind":             decMap,
-			"known_findings":                dedupe(knownLines),
-			"engine_mismatch":               mismatchLines,
-			"load_s":                        m.LoadTime.Seconds(),
-			"ssa_build_s":                   m.BuildTime.Seconds(),
+			"states":                                  tot.Paths + decTotal,
+			"transitions":                             decTotal + tot.Paths,
+			"traces_validated_against_impl":           replays + passReplays,
+			"native_replays_of_counterexamples":       replays,
+			"native_replays_of_sampled_passing_paths": passReplays,
+			"samples":                                 samples,
+			"exhaustive":                              false,
+			"technique":                               "bounded symbolic execution of go/ssa with SMT (z3) path feasibility and assertion discharge",
+			"harnesses":                               reports,
+			"functions_encoded":                       fnList,
+			"intrinsics_used":                         inList,
+			"bounds":                                  spec.Bounds[tier],
+			"outside_the_claim":                       spec.Outside,
+			"queries":                                 map[string]any{"feasibility": tot.QFeas, "assertion": tot.QAssert, "answered_from_cache": tot.QCached, "answered_by_cached_model": tot.QModelHit, "unknown": tot.QUnknown},
+			"assertions_discharged":                   tot.AssertsChecked,
+			"solver":                                  solverFromEnv().String(),
+			"solver_s":                                solverS,
+			"decisions_by_kind":                       decMap,
+			"known_findings":                          dedupe(knownLines),
+			"engine_mismatch":                         mismatchLines,
+			"load_s":                                  m.LoadTime.Seconds(),
+			"ssa_build_s":                             m.BuildTime.Seconds(),
 		},
 	}
 	evDir := filepath.Join(verifRoot(), "evidence")
